@@ -75,6 +75,12 @@ def make_exhaustive(maxn, minprod=0, ref='brute'):
         matcher = refs.max_matching_bruteforce if ref == 'brute' else refs.max_matching_kuhn
         for mask in range(lo, hi):
             edges = [pairs[b] for b in range(nu * nv) if (mask >> b) & 1]
+            # every edge SET is enumerated; its list ORDER alternates between sorted, reversed, and two random orders (adjacency lists are built in list order)
+            om = mask % 4
+            if om == 1:
+                edges = edges[::-1]
+            elif om >= 2 and len(edges) > 1:
+                edges = [edges[int(j)] for j in rng.permutation(len(edges))]
             r = matcher(nu, nv, edges)
             # fast path: identical conditions evaluated inline; the detailed (recording) oracle runs only on a failure
             g = ptn.BipartiteGraph(nu, nv, edges)
@@ -235,7 +241,7 @@ def insitu_case(ctx, idx, rng):
 
 SPEC = {
     'id': 'C18',
-    'rule': ('every graph is solved by one HopcroftKarp object that is then called two more times (each result must be a maximum matching); exhaustive: every edge set of every partition nu x nv <= 4x4 against a brute-force maximum matching (quick and thorough); '
+    'rule': ('(edge lists of the exhaustive enumerations come in sorted, reversed and random order in rotation) every graph is solved by one HopcroftKarp object that is then called two more times (each result must be a maximum matching); exhaustive: every edge set of every partition nu x nv <= 4x4 against a brute-force maximum matching (quick and thorough); '
              'thorough adds every edge set of the partitions with nu*nv > 16 up to 5x5 against Kuhn\'s algorithm; every ORDERED edge list with repetitions '
              '(length <= nu*nv+1) for shapes with nu*nv <= 4 and random duplicate-padded lists whose length hits nu*nv, nu*nv+-1, nu, nv, nu+nv; random graphs up to 60x60 '
              '(empty, sparse, dense, complete, duplicate edges, long augmenting paths) with a logical-step budget 50(U+V+E)^2+1000 counted by '
